@@ -2160,6 +2160,15 @@ func (e *Env) evalLocs(x Expr) []modLoc {
 			v := e.eval(n.Args[0])
 			return e.locsOfValue(v, x)
 		}
+		if id, ok := n.Fun.(*EIdent); ok && id.Name == "allcells" && len(n.Args) == 1 {
+			// allcells(T): every memory cell of (non-struct) type T that is reached through a *T pointer
+			T := e.goType(typeArg(n.Args[0]))
+			if T == nil {
+				e.fail("allcells: type")
+			}
+			hn, hs := vc.d.cellHeap(T)
+			return []modLoc{{heap: hn, hsort: hs, whole: true}}
+		}
 		if id, ok := n.Fun.(*EIdent); ok && id.Name == "allelems" && len(n.Args) == 1 {
 			// allelems(T): the elements of every array/slice with element type T
 			T := e.parseType(typeArg(n.Args[0]))
